@@ -80,7 +80,7 @@ package fox
 //@   -- assumed: copyBufPool only ever holds *[]byte (its New function and the Put below)
 //@   assume-at after (*Pool).Get#1 : pool-type: dyntypeIs(call_result, bufPtr) && unbox(call_result, bufPtr) != nil
 //@   requires r != nil && r.ResponseWriter != nil && recINV(r) && !r.hijacked
-//@   modifies r.size, wBody[r.ResponseWriter], wFinal[r.ResponseWriter], wFirst[r.ResponseWriter], released
+//@   modifies r.size, wBody[r.ResponseWriter], wFinal[r.ResponseWriter], wFirst[r.ResponseWriter], released, poolOut
 //@   ensures inv: recINV(r)
 //@   ensures bytes: n >= 0 && wBody[r.ResponseWriter] == old(wBody[r.ResponseWriter]) + n
 
